@@ -160,7 +160,7 @@ func GenPeerWorld(r *rand.Rand, tag string) (*PeerWorld, error) {
 	}
 	if pl.Master {
 		if r.Intn(2) == 0 {
-			pl.MOTD = []string{"Welcome to the reference node", "Stats Total connects = 2580 Total messages = 3900", "*** MTD Stats Total connects = 2580 Total messages = 3900"}[:1+r.Intn(3)]
+			pl.MOTD = []string{"Welcome to the reference node", "Stats Total connects = 2580 Total messages = 3900", "*** MTD Stats Total connects = 2580 Total messages = 3900", "*** Sysop: Bob, QTH: Oslo"}[:1+r.Intn(4)]
 		}
 		pl.Prompt = []string{w.PeerCall + " DE " + w.LibCall + ">", "CMS via exercise >", ">"}[r.Intn(3)]
 		if r.Intn(5) == 0 {
@@ -181,6 +181,7 @@ func GenPeerWorld(r *rand.Rand, tag string) (*PeerWorld, error) {
 	pl.Answers = map[string]string{}
 	pl.Comments = r.Intn(3)
 	pl.EarlyFQ = r.Intn(4) == 0
+	pl.CMSHangup = pl.Seed%4 == 1
 	pl.DupInBlock = r.Intn(6) == 0
 	pl.HoldFirst = pl.Seed%3 == 0
 	pl.DupPos = int(pl.Seed % 4) // 0 = the duplicate comes last, else at that index (derived, no extra draw)
